@@ -1,4 +1,4 @@
-"""C03 - Conversion preserves geometry and orientation conventions (partial: three necessary conditions)."""
+"""C03 - Conversion preserves geometry and orientation conventions (partial: provenance conditions plus the geometry formulas of walls and shades)."""
 from ..cfgq import Scope, returned_nodes
 from ..exprs import strip, short_callee, show, leaf_name, walk, mkproj, Normalizer
 from ..facts import AnalysisError
@@ -11,12 +11,15 @@ RULE_TEXT = ("the WinGeom literal of the converter as a field-to-field copy tabl
 EXPLANATION = ("D1 windows keep size, offset and setback (plain copies of the source attributes); D2 rotating the building changes exactly position and azimuth "
                "(both depend on global_deviation_from_north, tilt and polygon extents do not; window-attached shades derive from the rotated wall geometry); "
                "D3 every stored azimuth goes through the single convention conversion orientation_bdl_to_52016 / normalize(., -180, 180), or is a wall azimuth +- const")
-DECIDED = ["D1 window geometry is copied field by field", "D2 rotation covariance, necessary part (dependence sets)", "D3 one convention-conversion point for azimuths"]
-UNDECIDED = ["positions, normals, areas within 1 cm", "signs of the rotations", "outline reproduction of floors/ceilings", "shade corner points"]
+DECIDED = ["D1 window geometry is copied field by field", "D2 rotation covariance, necessary part (dependence sets)", "D3 one convention-conversion point for azimuths",
+           "D4 wall azimuth / tilt / position / edge polygon and both kinds of shade (rectangle, vertex-defined) as formulas in the BDL quantities, incl. the sign of the building rotation "
+           "and the three-vertex threshold (rules/_c03geom.py)", "D5 a storey's data wins over the space's own where the statement says so"]
+UNDECIDED = ["positions, normals, areas within 1 cm as numbers", "outline reproduction of floors/ceilings (polygon of a horizontal element)", "the 2D turn that carries vertex-defined shade corners into their plane"]
 ASSUMPTIONS = ["nalgebra point/rotation constructors"]
-LEVEL_TEXT = ("Partial: three necessary conditions of the geometry property are decided from def-use provenance of the converter's geometry literals - window size/offset/"
-              "setback are untouched copies, the building rotation enters exactly the position and the azimuth of every element, and every azimuth is produced by the "
-              "single BDL->EN ISO 52016 conversion function whose formula is checked. The numeric statement (1 cm, areas, normals) is NOT decided by this family.")
+LEVEL_TEXT = ("Partial: necessary conditions of the geometry property are decided from def-use provenance and normalised formulas of the converter's geometry literals - window "
+              "size/offset/setback are untouched copies, the building rotation enters exactly the position and the azimuth of every element, every azimuth is produced by the "
+              "single BDL->EN ISO 52016 conversion function whose formula is checked, and the azimuth, tilt, position and polygon expressions of walls and shades equal the "
+              "reference expressions of rules/_c03geom.py for all inputs. The numeric statement (1 cm, areas, normals on concrete projects) is NOT decided by this family.")
 LEVEL_NOTE = "Trusted: rustc MIR; the field names of the hulc and bemodel geometry types."
 TECHNIQUE = "def-use provenance / dependence sets of struct-literal fields + normalised formula comparison"
 FIXTURE_EXPECT = ["c03.copy"]
